@@ -106,7 +106,7 @@ func (c *Ctx) TLC(opt TLCOpt) *TLCResult {
 		heap = "12g"
 	}
 	meta := filepath.Join(c.Out, fmt.Sprintf("md%d", n))
-	jargs := []string{"-XX:+UseParallelGC", "-Xmx" + heap, "-Xss256m"}
+	jargs := []string{"-XX:+UseParallelGC", "-Xmx" + heap, "-Xss256m", "-Djava.io.tmpdir=" + dir}
 	if opt.DFS {
 		jargs = append(jargs, "-Dtlc2.tool.queue.IStateQueue=StateDeque")
 	}
